@@ -14,7 +14,8 @@ EXPLANATION = (
     "store last_read. Wall-clock accuracy is not decided."
     ' defaults: for every field of config::Timeouts the fallback of the derived Deserialize for an absent key returns the same constant as impl Default for Timeouts.'
     ' every path from set_feature(Udp*) to enqueue passes set_idle_timeout(timeouts.udp).'
-    ' unit: the clock helper and is_timeout use the same Duration accessor; is_timeout(0) is false (stated as an implication of the is_zero edge).')
+    ' unit: the clock helper and is_timeout use the same Duration accessor; is_timeout(0) is false (stated as an implication of the is_zero edge).'
+    ' setter: Context::set_idle_timeout stores its argument on every path (0 = disabled must not be skipped).')
 RULE_TEXT = "instances = links of the configuration chain, guard edges of the closing condition"
 TRUSTED = ["tokio interval ticks roughly once per second", "system clock"]
 NOT_DECIDED = ["wall-clock accuracy (within the period plus granularity)"]
@@ -170,8 +171,30 @@ def rule_units(chk, prog, rule="unit"):
 
 
 
+
+def rule_setter_unconditional(chk, prog, rule="setter"):
+    """`timeouts.udp: 0` means "never close an idle UDP association".  The listeners hand the configured value to
+    Context::set_idle_timeout, whatever it is; the setter stores it on every path.  A setter that skips zero (or an unchanged value
+    it misjudges) leaves the TCP default in force for UDP associations."""
+    fs = prog.find(r"^context::Context::set_idle_timeout$", "redproxy_rs")
+    if len(fs) != 1:
+        chk.anchor_missing(rule, "Context::set_idle_timeout")
+        return
+    g = fs[0]
+    stores = [b for b in g.reachable for st in g.stmts(b)
+              if st["k"] == "assign" and "f:idle_timeout" in [x for x in st["lhs"][1:] if isinstance(x, str)]]
+    ok = bool(stores) and must_pass(g, [0], stores, g.returns())
+    chk.instance(rule, "%s:%s" % (g.file, g.line), "set_idle_timeout stores the value it is given on every path", ok, "%d store(s)" % len(stores))
+    if not ok:
+        chk.finding(rule, g.key, "conditional-store", "", "%s:%s" % (g.file, g.line),
+                    "Context::set_idle_timeout does not store its argument on every path: a configured value it skips (0 = disabled, or one "
+                    "it takes for unchanged) is lost and the context keeps the default idle period")
+
+
+
 def run(chk, prog):
     rule_units(chk, prog)
+    rule_setter_unconditional(chk, prog)
     rule_defaults(chk, prog)
     m = prog.body_of(prog.one(r"^main$"))
     # ---------------------------------------------------------------- (1a) def-use order in main
